@@ -461,7 +461,18 @@ def r10_1(cx):
                 writers.append((p, 'field', line_of(b, bi, si)))
             r = stt.get('r') if si != 'term' else None
             if r and r.get('k') == 'agg' and r.get('adt') == 'util::search::Input':
-                writers.append((p, 'agg', line_of(b, bi, si)))
+                # a literal that copies span and haystack from self unchanged (`Input { earliest: yes, ..self }`) writes neither
+                t0 = b.rvalue_term(r, 0, bi)
+                keeps = isinstance(t0[3], dict) and all(tstr(peel_all(expand_vars(b, t0[3].get(f0)))) == 'self.%s' % f0 for f0 in ('span', 'haystack'))
+                if not keeps:
+                    writers.append((p, 'agg', line_of(b, bi, si)))
+    # the by-value builders change exactly the one thing they are named after (everything else -- in particular the anchoring
+    # mode, the span and the haystack -- is carried over)
+    from rules.utilfn import builder_sets_only
+    for nm, field, setter in (('anchored', 'anchored', r'Input::set_anchored$'), ('earliest', 'earliest', r'Input::set_earliest$'),
+                              ('span', 'span', r'Input::set_span$'), ('range', 'span', r'Input::set_range$')):
+        whyb = builder_sets_only(cx, "util::search::Input::<'h>::%s" % nm, field, setter)
+        cx.report('R10.1', cx.body("util::search::Input::<'h>::%s" % nm), 'builder:' + nm, whyb is None, 'Input::%s changes only the %s' % (nm, field) if whyb is None else 'Input::%s: %s' % (nm, whyb))
     names = sorted({w[0] for w in writers})
     okw = names == ["util::search::Input::<'h>::new", "util::search::Input::<'h>::set_span"]
     cx.report('R10.1', 'util::search::Input', 'span-writers', okw, 'Input.span / Input.haystack are written only by Input::new and Input::set_span' if okw else 'writers of Input.span/haystack: %s' % names)
